@@ -86,6 +86,11 @@ func (k *KittyImage) Draw(win Window) {
 	if atomicLoad(&k.encoding) {
 		return
 	}
+	if k.w == 0 || k.h == 0 {
+		// nothing to place: not resized yet, an empty picture, or
+		// destroyed
+		return
+	}
 	w, h := win.Size()
 	if k.w > w || k.h > h {
 		return
@@ -121,6 +126,7 @@ func (k *KittyImage) Draw(win Window) {
 // Destroy deletes this image from memory
 func (k *KittyImage) Destroy() {
 	fmt.Fprintf(k.vx.console, "\x1B_Ga=d,d=I,i=%d\x1B\\", k.id)
+	k.w, k.h = 0, 0
 }
 
 func (k *KittyImage) CellSize() (w int, h int) {
